@@ -30,9 +30,9 @@ ASSUMPTIONS = ["argmodel is the reference; gcc -E -dM -v agreed with it on every
 REQUIRED_HOOKS = ["parse_args", "H-gcc-validate", "H-sh-split"]
 
 DEFINES = ["FOO", "FOO=1", "BAR=a b", 'STR="x y"', "F(a,b)=a+b", "NEG=-1", "EMPTY=", "_FORTIFY_SOURCE=2", "X==", "x=y=z",
-           "V(...)=__VA_ARGS__", "A=0x10", "Q='c'"]
-PATHS = ["inc", "/abs/inc", "../rel", "dir with space", ".", "a=b", "a,b", "/usr/include/x86_64-linux-gnu", "inc/"]
-FILES = ["pre.h", "/abs/pre.h", "cfg/config.h", "my file.h"]
+           "V(...)=__VA_ARGS__", "A=0x10", "Q='c'", "COLOR=#fff", "TAG=a#b#"]
+PATHS = ["inc", "/abs/inc", "../rel", "dir with space", ".", "a=b", "a,b", "/usr/include/x86_64-linux-gnu", "inc/", "inc#1", "a,b,c/d"]
+FILES = ["pre.h", "/abs/pre.h", "cfg/config.h", "my file.h", "pre#2.h"]
 ARGV0 = ["cc", "gcc", "/usr/bin/g++", "clang", "clang++", "icx", "icpx", "nvcc", "/opt/x/mpicc", "ccache"]
 
 
@@ -250,7 +250,7 @@ def sh_split(command):
     return parts[:-1]
 
 
-SAFE = re.compile(r"^[A-Za-z0-9_@%+=:,./ \-\"'()\\]*$")
+SAFE = re.compile(r"^[A-Za-z0-9_@%+=:,./ \-\"'()\\#]*$")      # '#' inside a word is an ordinary character for the shell
 
 
 def render_commands(argv, rng):
